@@ -733,7 +733,7 @@ def results_inspected_rule(chk, P, key, doc, select, allow, floor):
                     used.add(row[0])
                     continue
                 bad.append((b, c))
-        if n < floor:
+        if n < floor and not getattr(chk, "_overlay", None):   # the floor was counted on the default build; a reduced build has fewer sites
             return False, "only %d Result-returning call sites found (expected >= %d)" % (n, floor), [], None
         if bad:
             b, c = bad[0]
